@@ -217,6 +217,14 @@ do_bindtwice(void)
         ev_end();
 }
 
+void
+disp_rearm_all(void)
+{
+        discover();
+        for (int i = 0; i < nd; i++)
+                *D[i].slot = D[i].mbinit;
+}
+
 int
 disp_cmd(const cmd *c)
 {
